@@ -103,8 +103,11 @@ theorem writeBitsWithOffsetLen_spec (b : BitBuffer) (src : List Byte) (off len :
       ∀ j, getBit b'.buffer j =
         if b.wp ≤ j ∧ j < b.wp + len then getBit src (off + (j - b.wp)) else getBit b.buffer j := by
   obtain ⟨e1, e2, e3, e4⟩ := ensure_spec b len h
-  unfold writeBitsWithOffsetLen sliceWriteBitsWithOffsetLen
-  simp only [bitStringCopyBulked_eq]
+  unfold writeBitsWithOffsetLen sliceWriteBitsWithOffsetLen failIf
+  rw [byte_len_eq]
+  have hpre : ¬ (src.length * 8 < off + len) := by omega
+  simp only [hpre, decide_false, Bool.false_eq_true, ite_false, Outcome.bind_ok,
+    bitStringCopyBulked_eq]
   obtain ⟨hok, hlen, hbits⟩ := bitStringCopy_ok src off (b.ensure len).buffer (b.ensure len).wp len
     (by rw [e1, e2]; omega) hs
   rw [hok]
@@ -121,14 +124,12 @@ theorem writeBitsWithOffsetLen_spec (b : BitBuffer) (src : List Byte) (off len :
   · simp [e3]
   · intro j; simp only; rw [hbits j, e2, e4]
 
-theorem writeBitsWithOffsetLen_err (b : BitBuffer) (src : List Byte) (off len : Nat) (h : b.Inv)
+theorem writeBitsWithOffsetLen_err (b : BitBuffer) (src : List Byte) (off len : Nat)
     (hs : src.length * 8 < off + len) :
     b.writeBitsWithOffsetLen src off len = err .endOfStream := by
-  obtain ⟨e1, e2, _, _⟩ := ensure_spec b len h
-  unfold writeBitsWithOffsetLen sliceWriteBitsWithOffsetLen
-  simp only [bitStringCopyBulked_eq]
-  rw [bitStringCopy_err_data _ _ _ _ _ (by rw [e1, e2]; omega) hs]
-  rfl
+  unfold writeBitsWithOffsetLen failIf
+  rw [byte_len_eq]
+  simp [hs]
 
 /-- the abstraction: a successful write appends exactly the source bits -/
 theorem abs_of_bits (b b' : BitBuffer) (src : List Byte) (off len : Nat)
